@@ -34,6 +34,7 @@ type run struct {
 	viol    func(key, desc string)
 	// lifecycle (C11)
 	inCallback int
+	onDeliver  func(skip int, seen time.Time)
 }
 
 type cstream struct {
@@ -63,6 +64,9 @@ func (s *cstream) Reassembled(rs []tcpassembly.Reassembly) {
 	}
 	for _, x := range rs {
 		s.deliveries++
+		if s.r.onDeliver != nil {
+			s.r.onDeliver(x.Skip, x.Seen)
+		}
 		if s.chk == nil {
 			continue
 		}
@@ -194,7 +198,7 @@ func c10Random(c *vlib.Ctx) {
 			continue
 		}
 		r := c.Rand(uint64(i))
-		p := asm.Params{Conns: r.Range(1, 2), MaxStream: c.Pick(16<<10, 64<<10), Flushes: r.Chance(1, 2), NoSYN: 10, CloseProb: 60}
+		p := asm.Params{Conns: r.Range(1, 2), MaxStream: c.Pick(16<<10, 64<<10), Flushes: r.Chance(1, 2), NoSYN: 10, CloseProb: 60, Stall: 6, MixSizes: r.Chance(1, 6)}
 		if r.Chance(1, 2) {
 			p.MaxStream = 600
 			p.SmallSegs = r.Bool()
